@@ -144,7 +144,7 @@ type verifC11Item struct {
 
 type verifC11SvcList []verifC11Item
 
-func (l verifC11SvcList) load(kc *KeepClient) error {
+func (l verifC11SvcList) json() ([]byte, error) {
 	items := []map[string]interface{}{}
 	for _, it := range l {
 		items = append(items, map[string]interface{}{
@@ -156,11 +156,61 @@ func (l verifC11SvcList) load(kc *KeepClient) error {
 			"read_only":        it.readOnly,
 		})
 	}
-	js, err := json.Marshal(map[string]interface{}{"kind": "arvados#keepServiceList", "items": items})
+	return json.Marshal(map[string]interface{}{"kind": "arvados#keepServiceList", "items": items})
+}
+
+func (l verifC11SvcList) load(kc *KeepClient) error {
+	js, err := l.json()
 	if err != nil {
 		return err
 	}
 	return kc.LoadKeepServicesFromJSON(string(js))
+}
+
+// verifC11API is a stub API server (an http.RoundTripper, no socket): it answers the
+// keep_services "accessible" call with the list and records what was asked.
+type verifC11API struct {
+	mu    sync.Mutex
+	js    []byte
+	asked []string
+}
+
+func (a *verifC11API) RoundTrip(req *http.Request) (*http.Response, error) {
+	a.mu.Lock()
+	auth := "noauth"
+	if strings.HasPrefix(req.Header.Get("Authorization"), "OAuth2 ") {
+		auth = "auth"
+	}
+	if len(a.asked) < 4 {
+		a.asked = append(a.asked, req.Method+":"+req.URL.Path+":"+auth)
+	}
+	a.mu.Unlock()
+	code, body := 404, []byte(`{"errors":["not found"]}`)
+	if req.Method == "GET" && req.URL.Path == "/arvados/v1/keep_services/accessible" {
+		code, body = 200, a.js
+	}
+	return &http.Response{StatusCode: code, Status: fmt.Sprintf("%d x", code), Header: http.Header{"Content-Type": []string{"application/json"}},
+		Body: ioutil.NopCloser(bytes.NewReader(body)), Request: req}, nil
+}
+
+var verifC11APISeq int64
+
+// discover makes kc find the list the way a fresh client does: no SetServiceRoots, no
+// LoadKeepServicesFromJSON, but discoverServices -> the per-API-host cache -> poll ->
+// arvadosclient.Call("GET", "keep_services", "", "accessible") -> loadKeepServers.
+func (l verifC11SvcList) discover(kc *KeepClient) (*verifC11API, error) {
+	js, err := l.json()
+	if err != nil {
+		return nil, err
+	}
+	api := &verifC11API{js: js}
+	kc.Arvados = &arvadosclient.ArvadosClient{
+		Scheme:    "http",
+		ApiServer: fmt.Sprintf("api%d.verif.example", atomic.AddInt64(&verifC11APISeq, 1)),
+		ApiToken:  "tok",
+		Client:    &http.Client{Transport: api},
+	}
+	return api, kc.discoverServices()
 }
 
 type verifC11Svc struct {
@@ -412,12 +462,12 @@ func verifC11Snapshot(mainID int) verifC11Snap {
 // longer limit before it is reported as a hang (a starved machine must not look like a deadlock);
 // after two hangs in this process the limit is 0.5 s and there is no second try.
 func verifC11Put(f []string) string {
-	if strings.HasPrefix(f[1], "puthr:") {
+	if strings.HasPrefix(f[1], "puthr") {
 		// PutHR allocates a BLOCKSIZE buffer when the declared size is <= 0 or BLOCKSIZE itself.
 		// In this sandbox touching 64 MiB of fresh memory was measured at 1.5-7 s when idle and
 		// much more under load, so such a case gets a very long limit and is never called a hang
 		// for being slow.
-		if nb, err := strconv.ParseInt(f[1][6:], 10, 64); err == nil && (nb <= 0 || nb >= 1<<24) && nb <= BLOCKSIZE {
+		if nb, err := strconv.ParseInt(f[1][strings.Index(f[1], ":")+1:], 10, 64); err == nil && (nb <= 0 || nb >= 1<<24) && nb <= BLOCKSIZE {
 			return verifC11PutOnce(f, 20*time.Minute, nil)
 		}
 	}
@@ -466,7 +516,7 @@ func verifC11SeqCase(f []string) string {
 			if svcKey(pf[6]) != svcKey(f[2+5]) {
 				return "bad-op"
 			}
-			if strings.HasPrefix(pf[1], "puthr:") {
+			if strings.HasPrefix(pf[1], "puthr") {
 				return "bad-op" // seq cases use the buffer entry points only
 			}
 			out := verifC11PutOnce(pf, limit, &kc)
@@ -565,7 +615,12 @@ func verifC11PutOnce(f []string, limit time.Duration, share **KeepClient) string
 			HTTPClient:    ctl,
 			RequestID:     ctl.reqid,
 		}
-		if err := list.load(kc); err != nil {
+		viaAPI := len(f[6])%16 == 3 // a deterministic 1/16 of the cases goes through service discovery
+		if viaAPI {
+			if _, err := list.discover(kc); err != nil {
+				return "load-error"
+			}
+		} else if err := list.load(kc); err != nil {
 			return "load-error"
 		}
 		if share != nil {
@@ -583,12 +638,20 @@ func verifC11PutOnce(f []string, limit time.Duration, share **KeepClient) string
 		call = func() (string, int, error) { return kc.PutHB(hash, data) }
 	case entry == "putb":
 		call = func() (string, int, error) { return kc.PutB(data) }
-	case strings.HasPrefix(entry, "puthr:"):
-		nb, err := strconv.ParseInt(entry[6:], 10, 64)
+	case strings.HasPrefix(entry, "puthr:"), strings.HasPrefix(entry, "puthrx:"):
+		// puthrx: the stream handed to PutHR delivers the data and then fails instead of EOF
+		failing := strings.HasPrefix(entry, "puthrx:")
+		nb, err := strconv.ParseInt(entry[strings.Index(entry, ":")+1:], 10, 64)
 		if err != nil {
 			return "bad-op"
 		}
-		call = func() (string, int, error) { return kc.PutHR(hash, bytes.NewReader(data), nb) }
+		call = func() (string, int, error) {
+			var r io.Reader = bytes.NewReader(data)
+			if failing {
+				r = &verifC11FailBody{bytes.NewReader(data)}
+			}
+			return kc.PutHR(hash, r, nb)
+		}
 	default:
 		return "bad-op"
 	}
@@ -811,6 +874,58 @@ func verifC11Load(f []string) string {
 		verifC11ShowMap(kc.GatewayRoots()), kc.replicasPerService, nd)
 }
 
+// verifC11Disc: `disc api <svc list as for load>` / `disc uris <uri,uri,...>`: what a fresh client
+// ends up with after service discovery.
+func verifC11Disc(f []string) string {
+	kc := &KeepClient{Arvados: &arvadosclient.ArvadosClient{ApiToken: "tok"}}
+	asked := "-"
+	switch f[1] {
+	case "api":
+		var list verifC11SvcList
+		if f[2] != "-" {
+			for _, s := range strings.Split(f[2], ";") {
+				p := strings.Split(s, ",")
+				if len(p) != 6 {
+					return "bad-op"
+				}
+				port, err := strconv.Atoi(p[2])
+				if err != nil || (p[3] != "0" && p[3] != "1") || (p[5] != "0" && p[5] != "1") {
+					return "bad-op"
+				}
+				typ := p[4]
+				if typ == "-" {
+					typ = ""
+				}
+				list = append(list, verifC11Item{p[0], p[1], port, p[3] == "1", typ, p[5] == "1"})
+			}
+		}
+		api, err := list.discover(kc)
+		if err != nil {
+			return "load-error"
+		}
+		api.mu.Lock()
+		asked = verifC11Join(api.asked)
+		api.mu.Unlock()
+	case "uris":
+		uris := []string{}
+		if f[2] != "-" {
+			uris = strings.Split(f[2], ",")
+		}
+		kc.Arvados.KeepServiceURIs = uris
+		if err := kc.discoverServices(); err != nil {
+			return "load-error"
+		}
+	default:
+		return "bad-op"
+	}
+	nd := 0
+	if kc.foundNonDiskSvc {
+		nd = 1
+	}
+	return fmt.Sprintf("L=%s W=%s G=%s rps=%d nd=%d asked=%s", verifC11ShowMap(kc.LocalRoots()), verifC11ShowMap(kc.WritableLocalRoots()),
+		verifC11ShowMap(kc.GatewayRoots()), kc.replicasPerService, nd, asked)
+}
+
 func verifC11Case(line string) (out string) {
 	defer func() {
 		if r := recover(); r != nil {
@@ -825,6 +940,8 @@ func verifC11Case(line string) (out string) {
 		return verifC11SeqCase(f)
 	case f[0] == "upl" && len(f) == 2:
 		return verifC11Upl(f)
+	case f[0] == "disc" && len(f) == 3:
+		return verifC11Disc(f)
 	case f[0] == "load" && len(f) == 3:
 		return verifC11Load(f)
 	}
